@@ -44,7 +44,12 @@ type Record struct {
 func DecodeRecord(r io.Reader) (RecordType, []byte, uint32, error) {
 	var header [4]byte
 	if _, err := io.ReadFull(r, header[:]); err != nil {
-		if errors.Is(err, io.EOF) || errors.Is(err, io.ErrUnexpectedEOF) {
+		if errors.Is(err, io.ErrUnexpectedEOF) {
+			// A tail cut inside the length header is a torn record, not a clean end:
+			// recovery must truncate it before the log is appended to again.
+			return 0, nil, 0, utils.ErrPartialRecord
+		}
+		if errors.Is(err, io.EOF) {
 			return 0, nil, 0, io.EOF
 		}
 		return 0, nil, 0, err
